@@ -39,6 +39,7 @@ macro_rules! dispatch {
             "C16" => $f::<props::c16::C16>($($arg),*),
             "C10" => $f::<props::c10::C10>($($arg),*),
             "C15" => $f::<props::c15::C15>($($arg),*),
+            "C07" => $f::<props::c07::C07>($($arg),*),
             "C08" => $f::<props::c08::C08>($($arg),*),
             "C14" => $f::<props::c14::C14>($($arg),*),
             "C06" => $f::<props::hist::C06>($($arg),*),
